@@ -312,7 +312,9 @@ def run(
         "Error: " in r.stdout and not r.violation and "Deadlock reached" not in r.stdout
     )
     if bad and not (expect_violation and r.violation):
-        tail = "\n".join([l for l in r.stdout.splitlines() if not re.match(r"(Parsing file|Semantic processing|Linting of)", l)][-40:])
+        lines = [l for l in r.stdout.splitlines() if not re.match(r"(Parsing file|Semantic processing|Linting of|\s*\|*line \d+, col|<\w+ line \d+)", l)]
+        first = next((i for i, l in enumerate(lines) if "Error" in l or "rror:" in l), max(0, len(lines) - 40))
+        tail = "\n".join(lines[first : first + 40])
         raise MachineryError("TLC failed on %s/%s:\n%s" % (module, cfg, tail))
     if not simulate and not r.violation and "Model checking completed" not in r.stdout:
         tail = "\n".join(r.stdout.splitlines()[-15:])
